@@ -23,6 +23,7 @@ DECLINED = ["progress of a blocked writer under a continuous reader stream (fair
 ASSUMPTIONS = ["C04 and C05 rules (re-evaluated as part of this check)"]
 RULES_DOC = dict(common.SHARED_DOC)
 RULES_DOC["X4"] = common.X4_DOC
+RULES_DOC["X5"] = common.X5_DOC
 RULES_DOC.update({
     "R1": "reader_count / write_flag are accessed only under ABTI_rwlock::mutex; every exit has released it",
     "R2": "reader waits on write_flag only, writer on write_flag||reader_count; state change only after the loop exits with its condition false and no error",
@@ -411,6 +412,7 @@ def rule_R4(P, rep):
 
 
 def run(P, rep, tier):
+    common.rule_widths(P, rep, [('ABTI_rwlock', 'reader_count')])
     common.rule_X4(P, rep)
     common.run_shared(P, rep, which=("X2", "X3"))
     rule_R1_R2(P, rep)
